@@ -124,6 +124,9 @@ def run(ctx):
     # E1 + dump: impl-shaped refines abstract over the whole lattice; every done-state is a vector
     dump = os.path.join(ctx.workdir, "e1", "states")
     ctx.run_tlc("e1", "Limits", "Limits_%s.cfg" % tier, dump=dump, coverage=True)
+    # E2: the same refinement for ALL integers (no lattice bound), symbolically
+    proved = vlib.apalache(ctx, "limits", "LimitsInd", [("impl-shaped helpers refine clamp/flag statement, unbounded", ["--init=Init", "--inv=Refines", "--length=0"])])
+    ctx.assumptions.append("apalache unbounded refinement discharged: %s" % proved)
     n = 0
     for st in vlib.read_dump(dump + ".dump", prefilter='pc = "done"'):
         n += 1
